@@ -17,22 +17,25 @@ BoxTypes   == {"i32", "f64"}
 VARIABLES a, b, done
 vars == <<a, b, done>>
 
+Prop    == IF "PROP" \in DOMAIN IOEnv THEN IOEnv.PROP ELSE "ALL"
+Want(p) == Prop \in {"ALL", p}
 Emit(c) == PrintT("CASE " \o ToJson(c))
 
 Init == a \in I /\ b \in I /\ done = FALSE
 
 \* --- chain family ---------------------------------------------------------
 Binary == /\ \A ty \in ChainTypes :
-               /\ \A op \in RelOps : Emit([op |-> op, ty |-> ty, n |-> N, a |-> a, b |-> b])
-               /\ Emit([op |-> "iv.cmp", ty |-> ty, n |-> N, a |-> a, b |-> b])
-               /\ Emit([op |-> "iv.eqhash", ty |-> ty, n |-> N, a |-> a, b |-> b])
+               /\ Want("C07") => \A op \in RelOps : Emit([op |-> op, ty |-> ty, n |-> N, a |-> a, b |-> b])
+               /\ Want("C15") => Emit([op |-> "iv.cmp", ty |-> ty, n |-> N, a |-> a, b |-> b])
+               /\ Want("C14") => Emit([op |-> "iv.eqhash", ty |-> ty, n |-> N, a |-> a, b |-> b])
 
 Unary  == /\ a = b
           /\ \A ty \in ChainTypes :
-               /\ \A x \in W : /\ Emit([op |-> "iv.contains", ty |-> ty, n |-> N, a |-> a, x |-> x])
+               /\ Want("C07") => \A x \in W :
+                               /\ Emit([op |-> "iv.contains", ty |-> ty, n |-> N, a |-> a, x |-> x])
                                /\ Emit([op |-> "iv.range_contains", ty |-> ty, n |-> N, a |-> a, x |-> x])
-               /\ Emit([op |-> "iv.observe", ty |-> ty, n |-> N, a |-> a])
-               /\ Emit([op |-> "iv.display", ty |-> ty, n |-> N, a |-> a])
+               /\ Want("C14") => Emit([op |-> "iv.observe", ty |-> ty, n |-> N, a |-> a])
+               /\ Want("C19") => Emit([op |-> "iv.display", ty |-> ty, n |-> N, a |-> a])
 
 \* constructors: every pair of raw bounds (ordered, equal, inverted) through every path;
 \* driven from the register contents: lo/hi are taken from two two-sided registers' low ends
@@ -65,7 +68,7 @@ Next == /\ ~done
         /\ done' = TRUE
         /\ UNCHANGED <<a, b>>
         /\ CASE Family = "chain" -> (Binary /\ (a = b => Unary)
-                                      /\ ((a.k = "two" /\ b.k = "two" /\ a.lo = a.hi /\ b.lo = b.hi) => Make))
+                                      /\ ((Want("C14") /\ a.k = "two" /\ b.k = "two" /\ a.lo = a.hi /\ b.lo = b.hi) => Make))
              [] Family = "box"   -> (BinArith /\ (a = b => Scalar))
              [] Family = "rel"   -> Relative
 
